@@ -61,7 +61,7 @@ pub fn spaces(tier: &str) -> Vec<Box<dyn Space>> {
     let m = menu::SELF_DELIMITING;
     let nl = list_count(m, maxlen);
     v.push(space(
-        &format!("all-sequences<={}-over-12-packet-menu x all-partitions", maxlen),
+        &format!("all-sequences<={}-over-14-packet-menu x all-partitions", maxlen),
         nl,
         move |i| judge(&list_at(m, maxlen, i)),
         move |i| {
@@ -118,8 +118,8 @@ pub fn run(tier: &str) -> i32 {
         prop: "C11".into(),
         tier: tier.into(),
         level: "model_checking",
-        rule: "every sequence of 1..=5 (thorough 6) packets over the 12-packet self-delimiting menu (V5x0, V5x2, V7x1, V9-T, V9-D, V9-TD, V9-OT+OD, IPFIX-T, IPFIX-D, IPFIX-TD, IPFIX-T', IPFIX-D(absent id)), each under ALL 2^(n-1) partitions into consecutive calls on a fresh parser; sequences whose one-per-call run contains an error element are outside the domain (tagged, not judged); plus maximal chains up to the datagram limit (all-in-one vs one-per-call). Oracle: canonical dump of the concatenated results and final cache snapshot identical to one-packet-per-call delivery. A sequence is distinct by the hash of its one-per-call result".into(),
-        bounds: json!({"sequence_len": if thorough {6} else {5}, "menu": menu::NAMES[..12].to_vec(), "partitions": "all"}),
+        rule: "every sequence of 1..=5 (thorough 6) packets over the 14-packet self-delimiting menu (V5x0, V5x2, V7x1, V9-T, V9-D, V9-TD, V9-OT+OD, IPFIX-T, IPFIX-D, IPFIX-TD, IPFIX-T', IPFIX-D(absent id), IPFIX header only, V9 count 0), each under ALL 2^(n-1) partitions into consecutive calls on a fresh parser; sequences whose one-per-call run contains an error element are outside the domain (tagged, not judged); plus maximal chains up to the datagram limit (all-in-one vs one-per-call). Oracle: canonical dump of the concatenated results and final cache snapshot identical to one-packet-per-call delivery. A sequence is distinct by the hash of its one-per-call result".into(),
+        bounds: json!({"sequence_len": if thorough {6} else {5}, "menu": menu::NAMES[..menu::SELF_DELIMITING].to_vec(), "partitions": "all"}),
         assumptions: vec![],
         trusted_base: vec!["c11::judge".into()],
         required_tags: vec!["early-packet-defines-template-a-later-one-needs", "out-of-domain:one-per-call-run-has-an-error"],
